@@ -275,3 +275,66 @@ func ZZVerifC08PathIndependence() {
 	}
 	rt.Reach("end")
 }
+
+var zzConcrete = []zzVal{
+	{kind: 1, s: "10"}, {kind: 2, f: 10}, {kind: 1, s: "true"}, {kind: 3, b: true}, {kind: 1, s: "x"}, {kind: 4, l: []string{"x", "10"}}, {kind: 2, f: -1},
+}
+
+// ZZVerifC08TypeChange: a field is overwritten with a value of another type - including values that print alike
+// ("10" and 10, "true" and true, "x" and the list [x]) - and every operator/literal combination still returns
+// exactly what the current value says.
+func ZZVerifC08TypeChange() {
+	db := NewDB()
+	rt.Assert(db.CreateVectorIndex("i", distance.Euclidean, 2, 4, distance.Float32, "", "") == nil, "prelude: index")
+	idx, _ := db.GetVectorIndex("i")
+	id, err := idx.Add("a", []float32{1})
+	rt.Assert(err == nil, "prelude: add")
+	other, _ := idx.Add("b", []float32{2}) // a second live node without the field
+	var cur zzVal
+	w := rt.IntRange("writes", 1, rt.Param("TCWRITES", 2))
+	for k := 0; k < w; k++ {
+		cur = zzConcrete[rt.IntRange("value", 0, len(zzConcrete)-1)]
+		unlocked := rt.IntRange("path", 0, 1) == 1
+		if unlocked {
+			rt.Assert(db.AddMetadataUnlocked("i", id, map[string]any{"k": cur.any()}) == nil, "AddMetadataUnlocked")
+		} else {
+			rt.Assert(db.AddMetadata("i", id, map[string]any{"k": cur.any()}) == nil, "AddMetadata")
+		}
+	}
+	type lit struct {
+		text  string
+		isNum bool
+		num   float64
+		str   string
+	}
+	lits := []lit{{"10", true, 10, "10"}, {"'true'", false, 0, "true"}, {"'x'", false, 0, "x"}, {"5", true, 5, "5"}, {"-1", true, -1, "-1"}}
+	for _, op := range zzOps {
+		for _, l := range lits {
+			if (op != "=" && op != "!=") && !l.isNum {
+				continue
+			}
+			got, ferr := db.FindIDsByFilter("i", "k "+op+" "+l.text)
+			rt.Assert(ferr == nil, "FindIDsByFilter accepts the clause")
+			if ferr != nil {
+				continue
+			}
+			want := zzRefMatch(cur, op, l.isNum, l.num, l.str)
+			// a numeric literal also equals the string that spells it (lenient union documented for '=')
+			if cur.kind == 1 && l.isNum && (op == "=" || op == "!=") {
+				if cur.s == l.str {
+					want = op == "="
+				}
+			}
+			if cur.kind == 4 && l.isNum && (op == "=" || op == "!=") {
+				for _, x := range cur.l {
+					if x == l.str {
+						want = op == "="
+					}
+				}
+			}
+			rt.Assert(got.Contains(id) == want, "type change: the filter answer follows the current value and type")
+			rt.Assert(got.Contains(other) == (op == "!="), "type change: a node lacking the field only matches !=")
+		}
+	}
+	rt.Reach("end")
+}
